@@ -428,8 +428,9 @@ func (vt *Model) il(ps int) {
 		ps = 1
 	}
 
-	if int(vt.margin.bottom-vt.cursor.row) < (ps - 1) {
-		ps = int(vt.margin.bottom - vt.cursor.row)
+	if ps > int(vt.margin.bottom-vt.cursor.row)+1 {
+		// no more lines than remain in the scroll region
+		ps = int(vt.margin.bottom-vt.cursor.row) + 1
 	}
 
 	// move the lines first
@@ -473,8 +474,9 @@ func (vt *Model) dl(ps int) {
 		ps = 1
 	}
 
-	if int(vt.margin.bottom-vt.cursor.row) < (ps - 1) {
-		ps = int(vt.margin.bottom - vt.cursor.row)
+	if ps > int(vt.margin.bottom-vt.cursor.row)+1 {
+		// no more lines than remain in the scroll region
+		ps = int(vt.margin.bottom-vt.cursor.row) + 1
 	}
 
 	for r := vt.cursor.row; r <= vt.margin.bottom; r += 1 {
